@@ -28,6 +28,13 @@ class Analysis:
             return "supplied:" + h.source
         return "?"
 
+    def origin_of(self, node) -> str:
+        if id(node) in self.supplied_by:
+            return "decoder-supplied"
+        if id(node) in self.hit_by_id:
+            return "engine-attached"
+        return "unknown-origin"
+
     def engine_attached(self, node) -> bool:
         return id(node) in self.hit_by_id and id(node) not in self.supplied_by
 
@@ -48,13 +55,13 @@ def c03(an: Analysis):
     seen = set()
     for n, p, d in an.nodes:
         if id(n) in seen:
-            v.append(("duplicate-node:" + an.source_of(n), {"type": n.type}))
+            v.append(("duplicate-node:" + an.origin_of(n), {"type": n.type, "source": an.source_of(n)}))
             continue
         seen.add(id(n))
         if id(n) == id(root):
             v.append(("root-reachable-as-child", {}))
         if n.parent is not p:
-            v.append(("parent-pointer:" + an.source_of(n), {"type": n.type, "parent_type": p.type, "has": None if n.parent is None else n.parent.type}))
+            v.append(("parent-pointer:" + an.origin_of(n), {"type": n.type, "source": an.source_of(n), "parent_type": p.type, "has": None if n.parent is None else n.parent.type}))
         if not isinstance(n.start, int) or not isinstance(n.end, int):
             v.append(("span-not-int:" + an.source_of(n), {}))
             continue
@@ -65,7 +72,11 @@ def c03(an: Analysis):
                 kind = "end<start"
             else:
                 kind = "end>len(parent)"
-            key = "span:%s:%s:%s" % (an.source_of(n), n.type, kind)
+            src = an.source_of(n)
+            if src.split(":")[-1] in ("<lambda>", "?") or src.startswith("keywords:") or src.startswith("supplied:keywords:"):
+                key = "span:%s:%s" % (an.origin_of(n), kind)  # synthetic registries / keyword searchers: one key per origin
+            else:
+                key = "span:%s:%s:%s" % (src, n.type, kind)
             h = an.hit_by_id.get(id(n))
             if h is not None and h.source == "find_powershell_strings" and h.end == len(h.text) - h.start and h.start > 0:
                 key += ":end=len(text)-start"
@@ -108,7 +119,7 @@ def c04(an: Analysis):
             if depth > 100000:
                 break
         if p is None:
-            v.append(("no-anchor:" + h.source, {"type": n.type}))
+            v.append(("no-anchor", {"type": n.type, "source": h.source}))
             continue
         if depth >= 1 and a != n.start:
             stats["nested"] += 1
@@ -202,5 +213,5 @@ def c05(an: Analysis):
             if h.start == 0 and any(sc.type == h.type and sc.value == h.value for sc in scanned_candidates):
                 stats["selfmatch"] += 1
                 continue
-            v.append(("lost-hit:" + h.source, {"type": h.type, "start": h.start, "end": h.end, "value": h.value}))
+            v.append(("lost-hit", {"source": h.source, "type": h.type, "start": h.start, "end": h.end, "value": h.value}))
     return v, stats
